@@ -404,6 +404,78 @@ func runC08(r *Report) {
 		}
 	}
 
+	// the compare-and-delete itself: DeleteState / RemoveFromNodeClients run only when the stored state
+	// names BOTH this node and this connection (a state written by a newer connection, on this or another
+	// node, must survive the late cleanup of the old one)
+	if dm := r.need("R-C08-5", "internal/cloud/services/client", "Service.DisconnectClientIfMatch"); dm != nil {
+		for _, d := range Calls(dm, false, "DeleteState", "RemoveFromNodeClients") {
+			node, conn := false, false
+			for _, ft := range Facts(d.Block()) {
+				bo, ok := ft.Cond.(*ssa.BinOp)
+				if !ok || !((bo.Op == token.EQL && ft.Pol) || (bo.Op == token.NEQ && !ft.Pol)) {
+					continue
+				}
+				o := originSummary(bo.X) + "|" + originSummary(bo.Y)
+				if strings.Contains(o, "NodeID") && strings.Contains(o, "param:nodeID") {
+					node = true
+				}
+				if strings.Contains(o, "ConnID") && strings.Contains(o, "param:connID") {
+					conn = true
+				}
+			}
+			r.Ob("R-C08-5", CallPos(d), node && conn, fmt.Sprintf("%s runs only when the stored state's node (%v) and connection (%v) both equal the caller's", CalleeOf(d).Name, node, conn), "DisconnectClientIfMatch", "match-both:"+CalleeOf(d).Name)
+		}
+	}
+	// the client index is written, refreshed and removed under the same condition: only for control
+	// connections (ConnType == "control") of an identified client (ClientID > 0). A writer, refresher or
+	// remover guarded differently leaves an index the others never maintain.
+	nIdx := 0
+	for _, f := range r.P.FuncsIn(csPkg) {
+		Instrs(f, func(in ssa.Instruction) {
+			ci, ok := in.(ssa.CallInstruction)
+			if !ok || !ci.Common().IsInvoke() {
+				return
+			}
+			n := CalleeOf(ci).Name
+			if n != "Set" && n != "Delete" {
+				return
+			}
+			kc, _ := CallOfValue(ci.Common().Args[0])
+			if kc == nil || CalleeOf(kc).Name != "makeClientKey" {
+				return
+			}
+			nIdx++
+			ctl, pos := false, false
+			for _, ft := range Facts(in.Block()) {
+				bo, isB := ft.Cond.(*ssa.BinOp)
+				if !isB {
+					continue
+				}
+				if k, isK := stripValue(bo.Y).(*ssa.Const); isK && k.Value != nil && strings.Contains(k.Value.String(), "control") {
+					if (bo.Op == token.EQL && ft.Pol) || (bo.Op == token.NEQ && !ft.Pol) {
+						ctl = true
+					}
+				}
+				if z, isZ := ConstInt(bo.Y); isZ && z == 0 && strings.Contains(originSummary(bo.X), "ClientID") {
+					if (bo.Op == token.GTR && ft.Pol) || (bo.Op == token.LEQ && !ft.Pol) {
+						pos = true
+					}
+				}
+			}
+			r.Ob("R-C08-3", in.Pos(), ctl && pos, fmt.Sprintf("%s of the client index happens only for a control connection (%v) of an identified client (%v), the condition under which it is registered", n, ctl, pos), r.P.FuncName(f), "index-guard:"+n)
+		})
+	}
+	if nIdx < 3 {
+		r.Fail("R-C08-3", 0, fmt.Sprintf("only %d writes/deletes of the client index found in the connection state store (4 confirmed by hand)", nIdx), csPkg, "index-guard:floor")
+	}
+	// the "index still names this connection" helper is asked about the client index key
+	for _, f := range r.P.FuncsIn(csPkg) {
+		for _, c := range Calls(f, false, "Store.clientIndexPointsTo") {
+			kc, _ := CallOfValue(Arg(c, 0))
+			r.Ob("R-C08-2", CallPos(c), kc != nil && CalleeOf(kc).Name == "makeClientKey", "clientIndexPointsTo is asked about the client index key ("+originSummary(Arg(c, 0))+")", r.P.FuncName(f), "points-to-key")
+		}
+	}
+
 	// ---- R-C08-5 compare-and-delete of the runtime state on close paths ---------------
 	var closers []*ssa.Function
 	if f := r.P.Fn(sessPkg, "SessionManager.CloseConnection"); f != nil {
